@@ -57,6 +57,24 @@ def socket_part(chk, cfg, proof_ok, detail):
     return diffrun.campaign(chk, fam, cases, proof_ok, detail, None, "C19 sockets: EINTR at every k-th native call", batch=100)
 
 
+def ipc_part(chk, cfg, proof_ok, driver_ok, detail, thorough):
+    """EINTR injected n times before every k-th IPC system call of semaphore acquire / creation and of
+    shared-memory creation / lock (the campaigns of C06 and C07, EINTR scenarios only)"""
+    import os
+    if not os.path.exists(os.path.join(pv.LEAN, "PV", "Driver", "IPC.lean")):
+        return False
+    from props import ipc, c06, c07
+    exe = ipc.build(cfg)
+    R = ipc.Runner(chk, ipc.Fam(exe), proof_ok and driver_ok, detail, "C19 IPC: EINTR")
+    cases = []
+    for mod in (c06, c07):
+        for setup, op, tail in mod.eintr_scenarios():
+            cases += ipc.eintr_cases(setup, op, tail, counts=(1, 2, 3, 4, 5, 6) if thorough else (1, 2, 6))
+    chk.cov["ipc_eintr_cases"] = len(cases)
+    R.run([ipc.prefilter(c) for c in cases], batch=20)
+    return R.found
+
+
 def prop_modules():
     import os
     mods = ["PV.Props.C19"]
@@ -78,6 +96,7 @@ def run(chk):
     real = [["real %d %d" % (ms, per)] for ms, per in ([(120, 7000), (300, 20000)] + ([(1000, 3000), (50, 1000)] if thorough else []))]
     f2, c2, t2 = diffrun.campaign(chk, fam, real, proof_ok, detail, None, "C19 sleep under a SIGALRM storm", batch=1, min_ops=1)
     f3, c3, t3 = socket_part(chk, cfg, proof_ok, detail)
+    f3 = ipc_part(chk, cfg, proof_ok, driver_ok, detail, thorough) or f3
     diffrun.conclude(chk, found or f2 or f3, corr or c2 or c3, thm or t2 or t3, proof_ok and driver_ok, detail, "C19 sleep + sockets")
     chk.cov["rule"] = ("scripted native sleep results: every number k<=6 of EINTR results x ambient errno values x final result x boundary msec values (exhaustive), "
                        "random longer scripts; real SIGALRM storms with a handler installed without SA_RESTART (lower bound on elapsed time only); distinct by op line")
